@@ -113,7 +113,16 @@ struct CallResult {
     std::vector<type_id> types;
     type_id unknown_id = 0;
     int retval = -100;
+    std::vector<std::pair<char, long>> reads; // hook H2: kind, offset (words) from the start of dispatch_data
 };
+
+// reads captured by hook H2 (raw addresses)
+struct RawRead {
+    char kind;
+    const std::uintptr_t* addr;
+};
+extern std::vector<RawRead> g_reads;
+extern bool g_capture_reads;
 
 enum class Route { resolve, call };
 
@@ -144,6 +153,7 @@ struct IRunner {
     virtual void next_of(int m, int d, int& o_called, int& o_ptr) = 0;
     virtual int class_of_id(type_id id) const = 0; // -1 if not an id of the universe
     virtual std::string shape_of(int m) const = 0;
+    virtual std::string layout_json() const = 0; // as of the last successful update
     // fired by the "return"-kind handler before it returns
     void (*on_error_return)(const Caught&) = nullptr;
 };
